@@ -88,4 +88,16 @@ Abs == INSTANCE PyLookup WITH
          sync    <- [i \in 1..Size |-> KeyAt(i) # None /\ rtab[i] = KeyAt(i)],
          cur     <- IF curKey = None THEN 0 ELSE IF curKey \in DOMAIN idx THEN idx[curKey] ELSE 0
 Refines == Abs!Spec
+
+(* ... and the abstraction proved correct by TLAPS for EVERY size, key set and eviction choice (spec/proofs/LookupAbs.tla):   *)
+(* this module, hence pyjelly's LRU table pair as bound to it by C05, is one of its implementations.                          *)
+Proved == INSTANCE LookupAbs WITH
+            Key    <- Keys, Empty <- 0, NoKey <- None,
+            n      <- Len(order),
+            wkey   <- [i \in 1..Size |-> KeyAt(i)],
+            rkey   <- rtab,
+            cur    <- IF curKey = None THEN 0 ELSE IF curKey \in DOMAIN idx THEN idx[curKey] ELSE 0,
+            eid    <- IF out[1] = None THEN 0 ELSE out[1],
+            tid    <- IF out[2] = None THEN 0 ELSE out[2]
+ImplementsProved == Proved!Spec
 =============================================================================
